@@ -6,6 +6,9 @@
     (it is generic in the function `f`, so no mirror is needed).
   * `dloop`/`dinv` mirror the per-family instantiations `X.inverse_cdf.loop1` / `X.inverse_cdf`
     with `X.cdf d` replaced by `f`; `dinv_spec` is the "smallest k with cdf k ≥ p" theorem.
+  * Only monotonicity of `f` is assumed (`Adm`): the bisection returns `ub` only when `lb + 1 = ub`
+    (the former early exit `f(ub) == z` is gone), so under the invariant `f lb < z ≤ f ub` the result
+    is the smallest `k` with `f k ≥ z` on plateaus too.
 -/
 import Statrs.Real.Simp
 import Statrs.Gen.D_internal
@@ -22,19 +25,21 @@ theorem tdiv_two_bounds (s : Int) : s - 1 ≤ 2 * Int.tdiv s 2 ∧ 2 * Int.tdiv 
       rw [← Int.tdiv_eq_ediv_of_nonneg (by omega), Int.neg_tdiv, neg_neg]
     rw [this]; omega
 
-/-- hypotheses on the function being inverted (`B` is the lower end of the argument type's range,
-    e.g. 0 for `u64`): monotone from `B` on, and no flat piece exactly at level `z`. -/
-structure Adm (f : Int → ℝ) (z : ℝ) (B : Int) : Prop where
+/-- hypothesis on the function being inverted (`B` is the lower end of the argument type's range,
+    e.g. 0 for `u64`): non-decreasing from `B` on.  Plateaus are allowed at every level, also
+    exactly at the searched level `z` (since the early exit `f(ub) == z` was removed from
+    `integral_bisection_search`, no "no flat piece at level `z`" premise is needed any more). -/
+structure Adm (f : Int → ℝ) (B : Int) : Prop where
   mono : ∀ a b, B ≤ a → a ≤ b → f a ≤ f b
-  noflat : ∀ k, B < k → f k = z → f (k - 1) < z
 
 variable {f : Int → ℝ} {z : ℝ} {B : Int}
 
-/-- one unfolding of the generated search loop under its invariant -/
-theorem search_step (h : Adm f z B) (fuel : Nat) (lb ub : Int) (hlt : lb < ub) (hB : B ≤ lb)
+/-- one unfolding of the generated search loop under its invariant `f lb < z ≤ f ub`: it returns
+    `ub` only when `lb + 1 = ub`, otherwise it halves the bracket -/
+theorem search_step (h : Adm f B) (fuel : Nat) (lb ub : Int) (hlt : lb < ub) (hB : B ≤ lb)
     (hl : f lb < z) (hu : z ≤ f ub) :
     D.internal.integral_bisection_search.loop1 (fuel + 1) f 2 z ub lb =
-      if (f ub = z ∨ lb + 1 = ub) then LoopR.ret (some ub)
+      if lb + 1 = ub then LoopR.ret (some ub)
       else if z ≤ f (Int.tdiv (lb + ub) 2)
         then D.internal.integral_bisection_search.loop1 fuel f 2 z (Int.tdiv (lb + ub) 2) lb
         else D.internal.integral_bisection_search.loop1 fuel f 2 z ub (Int.tdiv (lb + ub) 2) := by
@@ -47,14 +52,17 @@ theorem search_step (h : Adm f z B) (fuel : Nat) (lb ub : Int) (hlt : lb < ub) (
   have c1 : ¬ ¬ (f lb ≤ f (Int.tdiv (lb + ub) 2) ∧ f (Int.tdiv (lb + ub) 2) ≤ f ub) :=
     not_not.mpr ⟨h.mono _ _ hB hm1, h.mono _ _ (hB.trans hm1) hm2⟩
   rw [if_neg c1, if_neg hl.ne]
-  by_cases he : (f ub = z ∨ lb + 1 = ub)
+  by_cases he : lb + 1 = ub
   · rw [if_pos he, if_pos he]
   · rw [if_neg he, if_neg he]
     by_cases hz : z ≤ f (Int.tdiv (lb + ub) 2)
     · simp only [if_pos hz]
     · simp only [if_neg hz]
 
-theorem search_loop_spec (h : Adm f z B) (n : Nat) : ∀ (fuel : Nat) (lb ub : Int), n < fuel → lb < ub →
+/-- The generated bisection loop with `fuel > n` iterations available, started on a bracket
+    `f lb < z ≤ f ub` of width `≤ 2^n`, returns the `k ∈ (lb, ub]` with `f (k-1) < z ≤ f k` — for a
+    non-decreasing `f` the SMALLEST `k` with `z ≤ f k`, plateaus at level `z` included. -/
+theorem search_loop_spec (h : Adm f B) (n : Nat) : ∀ (fuel : Nat) (lb ub : Int), n < fuel → lb < ub →
     ub - lb ≤ 2 ^ n → B ≤ lb → f lb < z → z ≤ f ub →
     ∃ k, D.internal.integral_bisection_search.loop1 fuel f 2 z ub lb = LoopR.ret (some k) ∧
       lb < k ∧ k ≤ ub ∧ z ≤ f k ∧ f (k - 1) < z := by
@@ -62,22 +70,19 @@ theorem search_loop_spec (h : Adm f z B) (n : Nat) : ∀ (fuel : Nat) (lb ub : I
   | zero =>
     intro fuel lb ub hf hlt hw hB hl hu
     obtain ⟨g, rfl⟩ : ∃ g, fuel = g + 1 := ⟨fuel - 1, by omega⟩
-    have he : (f ub = z ∨ lb + 1 = ub) := Or.inr (by norm_num at hw; omega)
+    have he : lb + 1 = ub := by norm_num at hw; omega
     refine ⟨ub, by rw [search_step h g lb ub hlt hB hl hu, if_pos he], hlt, le_refl _, hu, ?_⟩
-    have : ub - 1 = lb := by norm_num at hw; omega
+    have : ub - 1 = lb := by omega
     rw [this]; exact hl
   | succ n ih =>
     intro fuel lb ub hf hlt hw hB hl hu
     obtain ⟨g, rfl⟩ : ∃ g, fuel = g + 1 := ⟨fuel - 1, by omega⟩
     rw [search_step h g lb ub hlt hB hl hu]
-    by_cases he : (f ub = z ∨ lb + 1 = ub)
+    by_cases he : lb + 1 = ub
     · refine ⟨ub, by rw [if_pos he], hlt, le_refl _, hu, ?_⟩
-      rcases he with he | he
-      · exact h.noflat ub (by omega) he
-      · have : ub - 1 = lb := by omega
-        rw [this]; exact hl
+      have : ub - 1 = lb := by omega
+      rw [this]; exact hl
     · rw [if_neg he]
-      have hne : lb + 1 ≠ ub := fun e => he (Or.inr e)
       obtain ⟨b1, b2⟩ := tdiv_two_bounds (lb + ub)
       have hp : (2:Int) ^ (n + 1) = 2 * 2 ^ n := by rw [pow_succ]; ring
       by_cases hz : z ≤ f (Int.tdiv (lb + ub) 2)
@@ -90,8 +95,9 @@ theorem search_loop_spec (h : Adm f z B) (n : Nat) : ∀ (fuel : Nat) (lb ub : I
         exact ⟨k, e, by omega, k2, k3, k4⟩
 
 /-- `integral_bisection_search f z lb ub` (generated) returns the smallest `k` in `(lb, ub]` with
-    `z ≤ f k`, provided `f lb < z ≤ f ub`, `f` is admissible and the bracket is shorter than `2^1000`. -/
-theorem search_spec (h : Adm f z B) (lb ub : Int) (hB : B ≤ lb) (hlt : lb < ub) (hl : f lb < z) (hu : z ≤ f ub)
+    `z ≤ f k`, provided `f lb < z ≤ f ub`, `f` is non-decreasing (plateaus allowed, also at level `z`)
+    and the bracket is shorter than `2^1000`. -/
+theorem search_spec (h : Adm f B) (lb ub : Int) (hB : B ≤ lb) (hlt : lb < ub) (hl : f lb < z) (hu : z ≤ f ub)
     (hw : ub - lb ≤ 2 ^ 1000) :
     ∃ k, D.internal.integral_bisection_search (α := ℝ) f z lb ub = some k ∧ lb < k ∧ k ≤ ub ∧ z ≤ f k ∧
       ∀ j, B ≤ j → j < k → f j < z := by
@@ -122,7 +128,7 @@ noncomputable def dinv (f : Int → ℝ) (mn mx : Int) (p : ℝ) : Int :=
     | LoopR.hang => panicV
     | LoopR.done ub => unwrapO (D.internal.integral_bisection_search (α := ℝ) f p mn ub)
 
-theorem dloop_spec (h : Adm f z B) (K : Int) (hKB : B ≤ K) (hK : z ≤ f K) (n : Nat) : ∀ (fuel : Nat) (ub : Int), n < fuel →
+theorem dloop_spec (h : Adm f B) (K : Int) (hKB : B ≤ K) (hK : z ≤ f K) (n : Nat) : ∀ (fuel : Nat) (ub : Int), n < fuel →
     0 < ub → B ≤ ub → K ≤ ub * 2 ^ n →
     ∃ r, dloop f fuel z 2 ub = LoopR.done r ∧ z ≤ f r ∧ ub ≤ r ∧ r ≤ ub * 2 ^ n := by
   induction n with
@@ -143,7 +149,7 @@ theorem dloop_spec (h : Adm f z B) (K : Int) (hKB : B ≤ K) (hK : z ≤ f K) (n
       have : (1:Int) ≤ 2 ^ (n + 1) := one_le_pow₀ (by norm_num)
       nlinarith
 
-theorem dinv_spec_full {p : ℝ} (h : Adm f p B) (mn mx K : Int) (hB2 : B ≤ 2) (hBmn : B ≤ mn) (hmn : -2 ^ 64 ≤ mn)
+theorem dinv_spec_full {p : ℝ} (h : Adm f B) (mn mx K : Int) (hB2 : B ≤ 2) (hBmn : B ≤ mn) (hmn : -2 ^ 64 ≤ mn)
     (hlow : ∀ j, B ≤ j → j < mn → f j < p) (hKB : B ≤ K) (hK : p ≤ f K) (hK2 : K ≤ 2 ^ 64)
     (hp0 : 0 < p) (hp1 : p < 1) :
     p ≤ f (dinv f mn mx p) ∧ (∀ j, B ≤ j → j < dinv f mn mx p → f j < p) ∧ mn ≤ dinv f mn mx p := by
@@ -170,9 +176,9 @@ theorem dinv_spec_full {p : ℝ} (h : Adm f p B) (mn mx K : Int) (hB2 : B ≤ 2)
     exact ⟨k3, k4, k1.le⟩
 
 /-- The default discrete `inverse_cdf` returns the smallest `k` (in the argument range `B ≤ k`) with
-    `p ≤ f k`, for `0 < p < 1`, provided `f` is admissible, nothing below `mn` reaches `p`, some
-    `K ≤ 2^64` reaches `p` (the quantile is representable), and `mn ≥ -2^64`. -/
-theorem dinv_spec {p : ℝ} (h : Adm f p B) (mn mx K : Int) (hB2 : B ≤ 2) (hBmn : B ≤ mn) (hmn : -2 ^ 64 ≤ mn)
+    `p ≤ f k`, for `0 < p < 1`, provided `f` is non-decreasing (plateaus included), nothing below `mn`
+    reaches `p`, some `K ≤ 2^64` reaches `p` (the quantile is representable), and `mn ≥ -2^64`. -/
+theorem dinv_spec {p : ℝ} (h : Adm f B) (mn mx K : Int) (hB2 : B ≤ 2) (hBmn : B ≤ mn) (hmn : -2 ^ 64 ≤ mn)
     (hlow : ∀ j, B ≤ j → j < mn → f j < p) (hKB : B ≤ K) (hK : p ≤ f K) (hK2 : K ≤ 2 ^ 64)
     (hp0 : 0 < p) (hp1 : p < 1) :
     p ≤ f (dinv f mn mx p) ∧ ∀ j, B ≤ j → j < dinv f mn mx p → f j < p :=
@@ -180,7 +186,7 @@ theorem dinv_spec {p : ℝ} (h : Adm f p B) (mn mx K : Int) (hB2 : B ≤ 2) (hBm
   ⟨r.1, r.2.1⟩
 
 /-- …and the result is at least `mn` -/
-theorem dinv_ge {p : ℝ} (h : Adm f p B) (mn mx K : Int) (hB2 : B ≤ 2) (hBmn : B ≤ mn) (hmn : -2 ^ 64 ≤ mn)
+theorem dinv_ge {p : ℝ} (h : Adm f B) (mn mx K : Int) (hB2 : B ≤ 2) (hBmn : B ≤ mn) (hmn : -2 ^ 64 ≤ mn)
     (hlow : ∀ j, B ≤ j → j < mn → f j < p) (hKB : B ≤ K) (hK : p ≤ f K) (hK2 : K ≤ 2 ^ 64)
     (hp0 : 0 < p) (hp1 : p < 1) : mn ≤ dinv f mn mx p :=
   (dinv_spec_full h mn mx K hB2 hBmn hmn hlow hKB hK hK2 hp0 hp1).2.2
